@@ -14,4 +14,6 @@ local g = @native function<T>(a: T, ...: any): T
   return a
 end
 type T = typeof(1 // 2)
+emit { update = function() for i = 1, 3 do if i == 2 then continue end t.x += i // 1 emit(`{i}`, if i then 1 else 2) end end, 1 // 1 }
+g "str"
 return g(t.x)
